@@ -2,39 +2,10 @@
 //! against simulated memory, driven by proptest generators and exhaustive sub-sweeps, judged by
 //! independent decoders.  See /verif/DESIGN.md §2.2.
 
-use vcommon::decoders;
-mod s1;
-mod shim;
-mod s2;
-mod selftest;
-
-include!(concat!(env!("OUT_DIR"), "/variants.rs"));
-
-use s1::*;
 use serde_json::{json, Value};
 use vcommon::{arg_value, cases, out_path, run_prop, Recorder};
-
-/// [lo, hi) of this executable's text mapping (for resolving truncated host pointers).
-pub fn text_range() -> (u64, u64) {
-    use std::sync::OnceLock;
-    static R: OnceLock<(u64, u64)> = OnceLock::new();
-    *R.get_or_init(|| {
-        let me = text_range as usize as u64;
-        let maps = std::fs::read_to_string("/proc/self/maps").unwrap_or_default();
-        for l in maps.lines() {
-            let mut it = l.split_whitespace();
-            let range = it.next().unwrap_or("");
-            let perms = it.next().unwrap_or("");
-            if let Some((a, b)) = range.split_once('-') {
-                let (a, b) = (u64::from_str_radix(a, 16).unwrap_or(0), u64::from_str_radix(b, 16).unwrap_or(0));
-                if perms.contains('x') && me >= a && me < b {
-                    return (a, b);
-                }
-            }
-        }
-        (0, 0)
-    })
-}
+use vsim::s1::{self, *};
+use vsim::{s2, selftest};
 
 fn parse_modes(s: Option<String>) -> Vec<Mode> {
     let s = s.unwrap_or_else(|| "fn,bool".into());
